@@ -136,6 +136,10 @@ void build_alphabet(int tier) {
     { Stmt s = mk(S_UNREACH); add(s, "unreachable"); }
     { Stmt s = mk(O_ASSIGN); s.v0 = VY; s.e = lin({}, 0); add(s, "y:=0"); }
     { Stmt s = mk(O_SELECT); s.v0 = VX; s.c = cst({{1, VY}}, 0, C_LEQ); s.e = lin({}, 0); s.e2 = lin({{1, VX}}, 1); add(s, "x:=ite(y<=0,0,x+1)"); }
+    { Stmt s = mk(O_ARITH_VK); s.a = 2; s.v0 = VX; s.v1 = VX; s.k = 0; add(s, "x:=x*0"); }
+    { Stmt s = mk(O_ARITH_VK); s.a = 2; s.v0 = VX; s.v1 = VY; s.k = -1; add(s, "x:=y*-1"); }
+    { Stmt s = mk(O_ARITH_VK); s.a = 1; s.v0 = VX; s.v1 = VX; s.k = 2; add(s, "x:=x-2"); }
+    { Stmt s = mk(O_ARITH_VK); s.a = 3; s.v0 = VX; s.v1 = VX; s.k = -2; add(s, "x:=x/-2"); }
   }
   if (WITH_BOOL) {
     { Stmt s = mk(O_BOOL_ASSIGN_CST); s.v0 = VB1; s.c = cst({{1, VX}}, 0, C_LEQ); add(s, "b1:=(x<=0)"); }
